@@ -134,6 +134,24 @@ type Parser struct {
 	mode      Mode
 	traceOut  io.Writer
 	comments  []*CommentGroup
+	nestLev   int // nesting depth of the expression or statement being parsed
+}
+
+// maxNestLev is the deepest nesting of expressions and statements the parser
+// accepts. Deeper input would exhaust the stack of the goroutine, which is a
+// fatal error the caller cannot recover from.
+const maxNestLev = 100000
+
+func (p *Parser) incNestLev() {
+	p.nestLev++
+	if p.nestLev > maxNestLev {
+		p.errors.Add(p.file.Position(p.pos), "exceeded max nesting depth")
+		panic(bailout{})
+	}
+}
+
+func (p *Parser) decNestLev() {
+	p.nestLev--
 }
 
 // NewParser creates a Parser.
@@ -205,6 +223,8 @@ func (p *Parser) parseExpr() Expr {
 	if p.trace {
 		defer untracep(tracep(p, "Expression"))
 	}
+	p.incNestLev()
+	defer p.decNestLev()
 
 	expr := p.parseBinaryExpr(token.LowestPrec + 1)
 
@@ -260,6 +280,8 @@ func (p *Parser) parseUnaryExpr() Expr {
 	if p.trace {
 		defer untracep(tracep(p, "UnaryExpression"))
 	}
+	p.incNestLev()
+	defer p.decNestLev()
 
 	switch p.token {
 	case token.Add, token.Sub, token.Not, token.Xor:
@@ -688,6 +710,8 @@ func (p *Parser) parseStmt() (stmt Stmt) {
 	if p.trace {
 		defer untracep(tracep(p, "Statement"))
 	}
+	p.incNestLev()
+	defer p.decNestLev()
 
 	switch p.token {
 	case token.Var, token.Const, token.Global, token.Param:
